@@ -1,7 +1,7 @@
 #!/bin/bash
 # runall.sh [quick|thorough] [ids...]: run every claimed check, print one line each
 TIER="${1:-quick}"; shift
-cd /verif
+cd "$(cd "$(dirname "$0")" && pwd)"
 IDS="$@"
 [ -z "$IDS" ] && IDS=$(python3 -c "import json;print(' '.join(c['property_id'] for c in json.load(open('MANIFEST.json'))['checks']))")
 for id in $IDS; do
